@@ -51,6 +51,8 @@ def run(chk, program, tier):
         for nid, c, meth in K.reader_reads(g):
             if meth == 'readexactly':
                 read_n = K._const_int(c.args[0])
+    chk.check(read_n == 13, 'WF-LEN13', 'client::readexactly', file='nmea2000/ioclient.py', line=0, expected='the EByte client reads exactly 13 bytes per packet', found=read_n,
+              detail='the receive path re-frames the stream with this constant; it must equal the packet length the encoder produces')
     for n, example in feas.items():
         frame = W.frame_bytes(n)
         rev = list(reversed(frame.items))
